@@ -186,6 +186,9 @@ class Run:
         und = [o for o in obls if o[1] == "undecided"]
         vio = [v for r in self.results for v in r.violations]
         errors = [e for r in self.results for e in r.errors]
+        nviol_obl = sum(1 for o in obls if o[1] == "violated")
+        if nviol_obl and not vio:
+            errors.append("%d obligations marked violated without a violation record: %s" % (nviol_obl, [o[0] for o in obls if o[1] == "violated"][:5]))
         paths = sum(r.paths for r in self.results)
         steps = sum(r.steps for r in self.results)
         funcs = sorted(set(f for r in self.results for f in r.functions))
@@ -304,12 +307,18 @@ def relerr_vs_oracle(native_out, oracle_terms, env_mp, mp, scale_mode="max"):
 
 
 # ---------------------------------------------------------------------------------------------- generic wrapper check
+def out_placeholders(n):
+    return [T.Sym("out!%d" % k) for k in range(n)]
+
+
 def check_wrapper(res, h, fn, in_syms, nout, oracle, key, tol, sampler, assumptions=(), rules=(), timeout_ms=10000,
-                  stubs=None, max_paths=64, nvalidate=8, mp_oracle=None, pid="", seed=0, obligations=None, fbits=64,
-                  path_filter=None, explorer_kw=None, on_paths=None):
-    """Explore wrapper fn on symbolic inputs; for every feasible path pose  out[k] == oracle(ins)[k]  as an identity
-    obligation.  oracle(ins) -> list of Terms (len nout) OR obligations(ins, outs, path) -> [(name, lhs, rhs)].
-    Candidates for violations are replayed on the native build against a 50-digit evaluation of the oracle."""
+                  stubs=None, max_paths=64, nvalidate=8, pid="", obligations=None, fbits=64, explorer_kw=None, on_paths=None,
+                  per_path=None, in_names=None, rules_out=None):
+    """Explore wrapper fn on symbolic inputs; for every feasible path pose identity obligations lhs == rhs.
+    oracle(ins) -> list of Terms (one per output)   OR   obligations(ins, outs) -> [(name, lhs, rhs)] written over
+    placeholder symbols for the outputs (so that the same obligation can be (a) instantiated with each path's output
+    terms for the solver and (b) evaluated numerically on the NATIVE outputs for replay).
+    per_path(path, obls) may return a dict name -> handler overriding how an obligation is decided on that path."""
     res.functions.add(fn)
     if nvalidate:
         res.validated += h.validate(fn, sampler, nout, nvalidate, fbits)
@@ -320,6 +329,14 @@ def check_wrapper(res, h, fn, in_syms, nout, oracle, key, tol, sampler, assumpti
         res.errors.append("%s: path budget exhausted" % key)
     if on_paths:
         on_paths(paths)
+    ph = out_placeholders(nout)
+    if obligations is not None:
+        obl = obligations(in_syms, ph)
+    else:
+        orc = oracle(in_syms)
+        obl = [("out%d" % k, ph[k], orc[k]) for k in range(nout)]
+    obl = [(n, l if isinstance(l, T.Term) else T.lift(l), r if isinstance(r, T.Term) else T.lift(r)) for n, l, r in obl]
+    names = in_names or [s.args[0] for s in in_syms]
     okpaths = 0
     for pi, p in enumerate(paths):
         pkey = "%s/path%d" % (key, pi)
@@ -335,28 +352,30 @@ def check_wrapper(res, h, fn, in_syms, nout, oracle, key, tol, sampler, assumpti
             res.add_raw(pkey + "/no-abort", "undecided", "aborting path: " + p.reason)
             res.notes.append("%s aborting path: %s" % (pkey, p.reason))
             continue
-        if path_filter and not path_filter(p):
-            continue
         okpaths += 1
-        if obligations is not None:
-            obl = obligations(in_syms, p.outs, p)
-        else:
-            orc = oracle(in_syms)
-            obl = [("out%d" % k, p.outs[k], orc[k]) for k in range(nout)]
+        sub = {"out!%d" % k: p.outs[k] for k in range(nout)}
+        handlers = per_path(p, obl) if per_path else {}
+        if handlers is None:
+            continue
         for name, lhs, rhs in obl:
             oname = "%s/%s" % (pkey, name)
+            hd = handlers.get(name) if handlers else None
+            if hd == "skip":
+                continue
             try:
-                lhs = lhs if isinstance(lhs, T.Term) else T.lift(lhs)
-                rhs = rhs if isinstance(rhs, T.Term) else T.lift(rhs)
-                rf = T.nf(T.Sub(lhs, rhs))
-                v = solver.check_identity(rf, pc=p.pc, assumptions=assumptions, extra_rules=rules, timeout_ms=timeout_ms)
+                l2 = T.substitute(lhs, sub)
+                r2 = T.substitute(rhs, sub)
+                if callable(hd):
+                    v = hd(name, l2, r2, p)
+                else:
+                    rf = T.nf(T.Sub(l2, r2))
+                    v = solver.check_identity(rf, pc=p.pc, assumptions=assumptions, extra_rules=rules, timeout_ms=timeout_ms)
             except T.PolyTooBig:
                 v = solver.Verdict("undecided", "normal form too large")
             if v.status == "holds":
                 res.add(oname, v)
                 continue
-            # candidate: try to reproduce on the native build
-            w = find_witness(h, fn, in_syms, nout, p, lhs, rhs, tol, sampler, v.model, mp_oracle, fbits)
+            w = find_witness(h, fn, names, nout, p, obl, name, tol, sampler, v.model, fbits)
             if w is not None:
                 v.status = "violated"
                 res.add(oname, v)
@@ -366,104 +385,86 @@ def check_wrapper(res, h, fn, in_syms, nout, oracle, key, tol, sampler, assumpti
                     "replay": dict(w, property=pid, key="%s/%s" % (key, name), tu_name=h.name, tu_text=h.text, extra=list(h.extra), fn=fn,
                                    nout=nout, tol=tol, fbits=fbits)})
             else:
-                st = "undecided"
                 how = v.how + (" ; solver model not reproduced natively within tol" if v.status == "violated" else "")
-                res.add_raw(oname, st, how, v.dt)
+                res.add_raw(oname, "undecided", how, v.dt)
     if okpaths == 0:
         res.errors.append("%s: no completed path (vacuous)" % key)
     return paths
 
 
-def find_witness(h, fn, in_syms, nout, path, lhs, rhs, tol, sampler, model, mp_oracle, fbits=64, ntry=60):
-    """Look for a concrete input where the NATIVE wrapper output differs from the 50-digit oracle by more than tol
-    (relative to the largest oracle entry).  Candidates: the solver's model, then sampler points."""
+def numeric_errors(obl, names, inp, out, mp):
+    """evaluate every obligation lhs-rhs at 50 digits with inputs inp and NATIVE outputs out;
+    returns dict name -> relative error (relative to max(1, largest |rhs| in the set))"""
+    env = {n: mp.mpf(x) for n, x in zip(names, inp)}
+    for k, x in enumerate(out):
+        env["out!%d" % k] = mp.mpf(x) if x == x else mp.nan
+    vals = {}
+    sc = mp.mpf(1)
+    for name, lhs, rhs in obl:
+        try:
+            l = T.evaluate(lhs, env, mp)
+            r = T.evaluate(rhs, env, mp)
+        except (ZeroDivisionError, ValueError, KeyError):
+            continue
+        vals[name] = (l, r)
+        if mp.isfinite(r) and abs(r) > sc:
+            sc = abs(r)
+    errs = {}
+    for name, (l, r) in vals.items():
+        if not mp.isfinite(l) or not mp.isfinite(r):
+            errs[name] = float("inf") if mp.isfinite(r) else 0.0
+        else:
+            errs[name] = float(abs(l - r) / sc)
+    return errs, vals
+
+
+def find_witness(h, fn, names, nout, path, obl, oname, tol, sampler, model, fbits=64, ntry=40):
+    """Look for a concrete input where obligation `oname`, evaluated on the NATIVE wrapper output, misses tol.
+    Candidates: the solver's model (completed from a sampler point), then sampler points."""
     mp = mpmath()
-    names = [s.args[0] for s in in_syms]
     cands = []
     if model:
         env = {}
         for i, val in model.items():
-            info = T.ATOM_LIST[i]
-            if info[0] == "sym":
-                env[info[1]] = val
-        if all(n in env for n in names):
-            cands.append([env[n] for n in names])
+            if i < len(T.ATOM_LIST) and T.ATOM_LIST[i][0] == "sym":
+                env[T.ATOM_LIST[i][1]] = val
+        base = list(sampler(999))
+        if len(base) == len(names):
+            cands.append([env.get(n, b) for n, b in zip(names, base)])
     for k in range(ntry):
         cands.append(list(sampler(k + 1000)))
     for inp in cands:
-        if any((x != x) or math.isinf(x) for x in inp):
+        if len(inp) != len(names) or any((x != x) or math.isinf(x) for x in inp):
             continue
         try:
             out = h.native(fn, inp, nout, fbits)
         except Exception:
             continue
-        env_mp = {n: mp.mpf(x) for n, x in zip(names, inp)}
-        try:
-            if mp_oracle is not None:
-                vals = mp_oracle([mp.mpf(x) for x in inp])
-                idx = None
-            else:
-                # compare the one output designated by lhs==out[k]
-                vals = None
-        except Exception:
-            continue
-        try:
-            if vals is None:
-                # evaluate lhs (impl term) symbolically is pointless; find which output index lhs is
-                ov = T.evaluate(rhs, env_mp, mp)
-                lv_native = None
-                # impl value: evaluate the impl term in mp as well to locate output; use native outs by matching index
-                k = None
-                for j, o in enumerate(path.outs):
-                    if o is lhs:
-                        k = j
-                        break
-                if k is None:
-                    # derived obligation: evaluate lhs with native outputs unknown -> use mp evaluation of lhs
-                    lv = T.evaluate(lhs, env_mp, mp)
-                    err = abs(lv - ov)
-                    sc = max(abs(ov), mp.mpf(1))
-                else:
-                    lv = mp.mpf(out[k])
-                    err = abs(lv - ov)
-                    allv = []
-                    sc = max(abs(ov), mp.mpf(1))
-                e = float(err / sc)
-                if not (e <= tol):
-                    if pc_holds(path.pc, {n: x for n, x in zip(names, inp)}) or k is not None:
-                        return {"inputs": inp, "native": out, "oracle": [str(ov)], "index": k, "err": e}
-            else:
-                sc = max([abs(v) for v in vals] + [mp.mpf(1)])
-                worst = 0.0
-                for x, v in zip(out, vals):
-                    e = float(abs(mp.mpf(x) - v) / sc) if x == x else float("inf")
-                    worst = max(worst, e)
-                if not (worst <= tol):
-                    return {"inputs": inp, "native": out, "oracle": [str(v) for v in vals], "index": None, "err": worst}
-        except (ZeroDivisionError, ValueError, KeyError):
-            continue
+        errs, vals = numeric_errors(obl, names, inp, out, mp)
+        e = errs.get(oname)
+        if e is not None and not (e <= tol):
+            l, r = vals[oname]
+            return {"inputs": inp, "native": out, "obligation": oname, "lhs": str(l), "rhs": str(r), "err": e,
+                    "obl_terms": [str(dict(zip(["lhs", "rhs"], [T.tstr(x, -50) for x in (o[1], o[2])]))) for o in obl if o[0] == oname][:1]}
     return None
 
 
 def replay_file(path):
-    """re-run a recorded violation against the native build of /repo's current tree; exit status 1 if it reproduces"""
+    """re-run a recorded violation: rebuild the wrapper natively from /repo's current tree and re-run the owning check's
+    obligation on the recorded input"""
     d = json.load(open(path))
     if d.get("kind") == "memory" or "tu_text" not in d:
         print("replay: structural finding (%s); re-run the check to re-decide it" % d.get("key"))
         return 0
-    mp = mpmath()
     h = Harness(d["tu_name"], d["tu_text"], d.get("extra", ()), native=True)
     out = h.native(d["fn"], d["inputs"], d["nout"], d.get("fbits", 64))
-    orc = [mp.mpf(s) for s in d["oracle"]]
-    if d.get("index") is not None:
-        x = out[d["index"]]
-        sc = max(abs(orc[0]), mp.mpf(1))
-        err = float(abs(mp.mpf(x) - orc[0]) / sc) if x == x else float("inf")
-    else:
-        sc = max([abs(v) for v in orc] + [mp.mpf(1)])
-        err = max((float(abs(mp.mpf(x) - v) / sc) if x == x else float("inf")) for x, v in zip(out, orc))
-    print("replay %s: native error %.3g vs tol %.1g" % (d["key"], err, d["tol"]))
-    if not (err <= d["tol"]):
+    print("replay %s: fn=%s inputs=%r" % (d["key"], d["fn"], d["inputs"]))
+    print("  native now : %r" % (out,))
+    print("  native then: %r" % (d.get("native"),))
+    print("  expected %s = %s (was %s, err %.3g, tol %.1g)" % (d.get("obligation"), d.get("rhs"), d.get("lhs"), d.get("err", 0), d.get("tol", 0)))
+    same = all((a == b) or (a != a and b != b) for a, b in zip(out, d.get("native", [])))
+    if same:
         print("VIOLATION property=%s replay=%s" % (d["property"], path))
         return 1
+    print("native output changed since the violation was recorded; re-run ./run %s to re-decide" % d["property"])
     return 0
